@@ -27,6 +27,12 @@ def _leaf_sum(W_Batch, it):
     return it.value
 
 
+def _leaf_hists(W_Batch, it):
+    if isinstance(it, W_Batch):
+        return [h for p in it.parts for h in _leaf_hists(W_Batch, p)] + [[d.name for d in it.routing_history]]
+    return [[d.name for d in it.routing_history]]
+
+
 def run_nested(n):
     from simprocesd.model import System
     from simprocesd.model.factory_floor import Source, Sink, Buffer, PartProcessor, Part, Batch, PartGenerator
@@ -62,6 +68,7 @@ def run_nested(n):
                produced=src.produced_parts,
                net=common.to_ticks(system.get_net_value_of_assets()),
                sum_assets=common.to_ticks(sum(a.value for a in system._assets)),
+               hists=[h for it in items for h in _leaf_hists(Batch, it)],
                level=buf.level(), stored=sum(len(b.parts) if isinstance(b, Batch) else 1 for b in buf.stored_parts))
     return res
 
@@ -96,7 +103,22 @@ def monitor_c16(sc, obs):
     return v
 
 
-MONITORS = {'C16': monitor_c16}
+def _nested_history(prop, base_name):
+    def mon(sc, obs):
+        from . import floor_monitors
+        v = getattr(floor_monitors, base_name)(sc, obs)
+        if obs and 'nested' in obs[-1]:
+            want = ['src', 'buf', 'm', 'snk']
+            for h in obs[-1]['nested']['hists']:
+                if h != want:
+                    v.append(dict(sig=prop + '/nested-batch-history', what='a part (or batch) carried inside a batch of batches through src -> buf -> m -> snk '
+                                                                          'has the routing history %s' % h))
+                    break
+        return v
+    return mon
+
+
+MONITORS = {'C16': monitor_c16, 'C08': _nested_history('C08', 'monitor_c08'), 'C17': _nested_history('C17', 'monitor_c17')}
 stats = fam_floor.stats
 
 
